@@ -367,33 +367,55 @@ def mpContentType : Str := "multipart/form-data; boundary=*".toList
 inductive Fault | none | ser | tx | read | dec | dect
 deriving DecidableEq, Repr
 
+/-- fault tokens: `tx`, `txtemp`, `txtimeout`, `txdl`, … are all transport failures (the error KIND —
+    plain, net.Error Temporary/Timeout, context.DeadlineExceeded, ECONNRESET, wrapped — must make no
+    difference); `read` / `readmid` are body-read failures (at once / after some bytes) -/
 def parseFault (s : String) : Fault :=
-  if s = "ser" then .ser else if s = "tx" then .tx else if s = "read" then .read
+  if s = "ser" then .ser else if s.startsWith "tx" then .tx else if s.startsWith "read" then .read
   else if s = "dec" then .dec else if s = "dect" then .dect else .none
 
-/-- response payload spec: `ok<vhex>:<k>[:<status>]` or `bad[:<status>]`.  The HTTP status of the response is ignored: neither
-    the code (`decodeResponseBody` reads and deserializes whatever came back) nor the property's statement ("the response body is
-    deserialized into the supplied target") looks at it. -/
-def parseResp (s : String) : Option Target :=
-  if s.startsWith "ok" then
-    match (s.drop 2).toString.splitOn ":" with
-    | [v, k] => some (unhex v.toList, k.toInt?.getD 0)
-    | [v, k, _status] => some (unhex v.toList, k.toInt?.getD 0)
-    | _ => none
-  else none
+/-- what the default JSON deserializer makes of a response body, given a `*R` target -/
+inductive RespKind
+  | ok (t : Target)     -- a JSON object with both fields: the target is overwritten
+  | keep                -- valid JSON that leaves a struct target as it is (`null`, `{}`), no error
+  | fail                -- not decodable (zero bytes, whitespace only, garbage, truncated, wrong JSON type): error, target untouched
+deriving DecidableEq, Repr
 
-def envOf (f : Fault) (resp : Option Target) : Env where
+/-- response spec `<body>[@<status>]`, body = `ok<vhex>:<k>` | `big<k>` | `null` | `obj0` | `bad` | `empty` | `ws` | `garbage` | `arr`;
+    the status code (and the response headers the stub adds) must make no difference -/
+def parseNat (s : Str) : Nat := s.foldl (fun n c => n * 10 + (c.toNat - 48)) 0
+
+def parseInt : Str → Int
+  | '-' :: s => - (parseNat s : Int)
+  | s => (parseNat s : Int)
+
+def parseRespL (s : Str) : RespKind :=
+  let s := (cutAt '@' s).1
+  match s with
+  | 'b' :: 'i' :: 'g' :: k => .ok (List.replicate 5000 'a', parseInt k)      -- a 5 kB body
+  | 'o' :: 'k' :: rest =>
+    match cutAt ':' rest with
+    | (v, some k) => .ok (unhex v, parseInt k)
+    | _ => .fail
+  | _ => if s = "null".toList ∨ s = "obj0".toList then .keep else .fail
+
+def parseResp (s : String) : RespKind := parseRespL s.toList
+
+/-- the harness environment: `resp` is the response spec; the transport hands it back as the body and the
+    deserializer is applied to the bytes it is given -/
+def envOf (f : Fault) (resp : Str) : Env where
   jsonSer b := if f = .ser then .error .ser else match b with
     | .json .. => .ok (bodyRecord b)
     | _ => .error .other
   mpSer b := if f = .ser then .error .ser else match b with
     | .form .. => .ok (bodyRecord b, mpContentType)
     | _ => .error .other
-  transport _ := if f = .tx then .error .tx else .ok (if f = .read then .error .read else .ok [])
-  deser _ cur := if f = .dec then (none, some .dec) else if f = .dect then (none, none) else
-    match resp with
-    | some t => (some t, none)
-    | none => (some cur, some .json)
+  transport _ := if f = .tx then .error .tx else .ok (if f = .read then .error .read else .ok resp)
+  deser bytes cur := if f = .dec then (none, some .dec) else if f = .dect then (none, none) else
+    match parseRespL bytes with
+    | .ok t => (some t, none)
+    | .keep => (some cur, none)
+    | .fail => (some cur, some .json)
 
 def parseHeader (s : String) : Option Header :=
   if s = "nil" then none else if s = "-" then some [] else
@@ -490,7 +512,7 @@ def runOp (fl : Flags) (c : Cfg) (st : St) (op : String) : St × Str :=
     match st.ios[idx.toNat?.getD 0]? with
     | none => (st, "noio".toList)
     | some io =>
-      let (o, w') := io (envOf (parseFault f) (parseResp r)) st.w
+      let (o, w') := io (envOf (parseFault f) r.toList) st.w
       match o with
       | .panic => ({ st with w := w' }, "panic".toList)
       | _ =>
@@ -585,17 +607,19 @@ def specOp (c : Cfg) (st : SpecSt) (op : String) : SpecSt × List Str :=
           | .read => ["err=read tgt=nil".toList]
           | .dec => ["err=dec tgt=nil".toList]
           | .dect => ["err=nil tgt=nil".toList]
+          -- the deserializer is invoked on whatever body was read (also zero bytes) and its error surfaces
           | _ => match parseResp r with
-            | some (v, k) => ["err=nil tgt=".toList ++ hex v ++ ':' :: (toString k).toList]
-            | none => ["err=json tgt=".toList ++ hex cur.1 ++ ':' :: (toString cur.2).toList, "err=json tgt=nil".toList]
+            | .ok (v, k) => ["err=nil tgt=".toList ++ hex v ++ ':' :: (toString k).toList]
+            | .keep => ["err=nil tgt=".toList ++ hex cur.1 ++ ':' :: (toString cur.2).toList]
+            | .fail => ["err=json tgt=".toList ++ hex cur.1 ++ ':' :: (toString cur.2).toList, "err=json tgt=nil".toList]
         let outs := (specURLs c ps).flatMap fun u =>
           match urlParse u with
           | none => ["n=0 err=url tgt=nil".toList]
           | some u' => tails.map fun tail => "n=1 ".toList ++ showSent ⟨m, u', 0, hdr, bodyRec⟩ ++ ' ' :: tail
         let sentNow := if (specURLs c ps).all (fun u => (urlParse u).isSome) then 1 else 0
         let cur' := match parseResp r with
-          | some t => if sentNow = 1 ∧ (f = .none ∨ f = .ser) then t else cur
-          | none => cur
+          | .ok t => if sentNow = 1 ∧ (f = .none ∨ f = .ser) then t else cur
+          | _ => cur
         ({ st with sent := st.sent + sentNow, calls := st.calls.set i (ps, body, cur') }, outs)
   | ["mut"] => (st, [if st.sent = 0 then "nomut".toList else "nil".toList])
   | ["dh"] => (st, ["hdr ".toList ++ showHeaderOpt c.hdr])
